@@ -167,7 +167,7 @@ UidStable ==
 
 CloneIso ==
     [][\A d \in Doms, e \in Doms : \A rs \in RootSeqs(d) :
-          CloneS(d, rs, e) =>
+          (DisjointRoots(rs) /\ CloneS(d, rs, e)) =>
              LET cloned == UNION {Desc(rs[i]) : i \in 1..Len(rs)}
                  new    == NewRange(Cardinality(cloned))
              IN
@@ -188,6 +188,16 @@ CloneIso ==
                               /\ v \in cloned => w = f[v]
                               /\ (v \in Refs \ cloned /\ owner[v] = e) => w = v
                               /\ (v \in Refs \ cloned /\ owner[v] # e) => w = Null ]_vars
+
+\* whatever the roots (listed twice, one inside the other): the i-th returned referent heads a complete copy of
+\* the i-th root's subtree - same labels, same child order - placed in the destination without a parent
+RECURSIVE SameShape(_, _, _)
+SameShape(o, c, e) ==
+    /\ owner'[c] = e /\ label'[c] = label[o] /\ Len(kids'[c]) = Len(kids[o])
+    /\ \A k \in 1..Len(kids[o]) : parent'[kids'[c][k]] = c /\ SameShape(kids[o][k], kids'[c][k], e)
+CloneEachComplete ==
+    [][\A d \in Doms, e \in Doms : \A rs \in RootSeqs(d) :
+          CloneS(d, rs, e) => \A i \in 1..Len(rs) : parent'[NewRef(i)] = Null /\ SameShape(rs[i], NewRef(i), e)]_vars
 
 -----------------------------------------------------------------------------
 Bound == nextRef <= MaxRef + 1
